@@ -147,7 +147,7 @@ def table : List Entry :=
     -- LayerSet
     setter .layerSet "layerOrder",
     { kind := .layerSet, name := "newLayer", methods := ["newLayer"], effs := [.add .layer true [(.lib, false)]] },
-    { kind := .layerSet, name := "__delitem__", methods := ["newLayer", "__delitem__"] },
+    { kind := .layerSet, name := "__delitem__", methods := ["__delitem__"], effs := [.removeNewest .layer] },
     { setter .layerSet "defaultLayer" with effective := false },
     -- Layer
     setter .layer "color",
@@ -169,11 +169,11 @@ def table : List Entry :=
     { kind := .glyph, name := "bottomMargin=[no vertical origin]", methods := ["bottomMargin="], targets := [.child .lib, .self] },
     { kind := .glyph, name := "topMargin=", methods := ["topMargin="], targets := [.child .lib, .self] },
     { setter .glyph "image" with targets := [.child .image, .self] },
-    { kind := .glyph, name := "clearImage", methods := ["image=", "clearImage"], targets := [.child .image, .self] } ]
+    { kind := .glyph, name := "clearImage", methods := ["clearImage"], targets := [.child .image, .self] } ]
   ++ glyphList .contour "Contour" "Contours" ++ glyphList .component "Component" "Components"
   ++ glyphList .anchor "Anchor" "Anchors" ++ glyphList .guideline "Guideline" "Guidelines" ++
   [ { kind := .glyph, name := "move", methods := ["move"], targets := [.child .contour, .child .component, .child .anchor] },
-    { kind := .glyph, name := "clear", methods := ["appendAnchor", "image=", "clear"], targets := [.child .image, .self],
+    { kind := .glyph, name := "clear", methods := ["clear"], targets := [.child .image, .self],
       effs := [.removeAll .contour, .removeAll .component, .removeAll .anchor, .removeAll .guideline] },
     { setter .glyph "name" with relay := .viaSelfAndParent },
     -- Contour
@@ -195,10 +195,10 @@ def table : List Entry :=
     setter .info "postscriptBlueValues",
     setter .features "text",
     { kind := .images, name := "__setitem__", methods := ["__setitem__"], guarded := true },
-    { kind := .images, name := "__delitem__", methods := ["__setitem__", "__delitem__"] },
+    plain .images "__delitem__",
     { kind := .images, name := "__setitem__unread", methods := ["__setitem__"], guarded := true, effective := false },
     plain .data "__setitem__",
-    { kind := .data, name := "__delitem__", methods := ["__setitem__", "__delitem__"] } ]
+    plain .data "__delitem__" ]
 
 def lookup (k : Kind) (name : String) : Option Entry := table.find? (fun e => e.kind = k ∧ e.name = name)
 
